@@ -249,7 +249,7 @@ def check_message(case):
 
 
 SUBCHECKS = [
-    SubCheck("worlds", check_world, "non-trivial: >=2 input kinds, or a non-default hash type, or a script-path/miniscript spend", lambda: world_case(), quick=700, thorough=12000, max_buckets=6),
-    SubCheck("worlds_each_kind", check_world, "single-input worlds, kinds cycled so that each is reached", lambda: world_case(max_inputs=1), quick=400, thorough=6000, max_buckets=6),
-    SubCheck("messages", check_message, "BIP322 and Bitcoin message signatures per address type verify for their address and for no other key or message", message_case, quick=500, thorough=6000),
+    SubCheck("worlds", check_world, "non-trivial: >=2 input kinds, or a non-default hash type, or a script-path/miniscript spend", lambda: world_case(), quick=2400, thorough=24000, max_buckets=6),
+    SubCheck("worlds_each_kind", check_world, "single-input worlds, kinds cycled so that each is reached", lambda: world_case(max_inputs=1), quick=1300, thorough=12000, max_buckets=6),
+    SubCheck("messages", check_message, "BIP322 and Bitcoin message signatures per address type verify for their address and for no other key or message", message_case, quick=1500, thorough=12000),
 ]
